@@ -149,6 +149,25 @@ def run_history(ops, props=('C01', 'C02', 'C05', 'C06')):
                     out.append(('C01', f'removal of registered {sid} rejected'))
                 if monitor.fingerprint((sm.systems, sm.execution_queue)) != before:
                     out.append(('C01', f'rejected removal of {sid} changed the scheduler'))
+        elif kind == 'readd':
+            # the same system object is removed and registered again: it counts as newly registered
+            sid = op[1]
+            rec = next((r for r in w.reg if r.id == sid), None)
+            if rec is not None:
+                obj = sm.systems[sid]
+                sm.remove_system(sid)
+                sm.add_system(obj)
+                w.reg = [r for r in w.reg if r.id != sid]
+                w.reg.append(Rec(obj, sid, rec.prio, rec.freq, rec.start, rec.end, w.stamp, rec.script))
+                w.stamp += 1
+        elif kind == 'cleanup':
+            # System.clean_up(): the system removes itself - must behave like remove_system(id)
+            sid = op[1]
+            if sid in sm.systems:
+                sm.systems[sid].clean_up()
+                w.reg = [r for r in w.reg if r.id != sid]
+                if sid in sm.systems or any(x.id == sid for x in sm.execution_queue):
+                    out.append(('C01', f'{sid}.clean_up() left the system registered / queued'))
         elif kind == 'complete':
             m.complete()
         elif kind == 'bad_exec':
@@ -256,6 +275,15 @@ def small_histories():
                 yield ops + [('remove', 's0'), ('add', 's0', ps[0], 1, 0, None, []), ('step', 1)]
                 yield ops + [('add', 's1', 5, 1, 0, None, []), ('remove', 'zz'), ('step', 1)]
                 yield ops + [('remove', f's{n - 1}'), ('step', 1)]
+    # changes of the system set *between* timesteps, after the scheduler already ran (stale snapshots / caches)
+    for ps in itertools.product([0, 1], repeat=3):
+        base = [('add', f's{k}', ps[k], 1, 0, None, []) for k in range(3)]
+        yield base + [('step', 1), ('remove', 's0'), ('add', 's0', ps[0], 1, 0, None, []), ('step', 2)]
+        yield base + [('step', 1), ('remove', 's1'), ('add', 'n', ps[1], 1, 0, None, []), ('step', 2)]
+        yield base + [('step', 1), ('cleanup', 's0'), ('add', 's0', ps[0], 1, 0, None, []), ('step', 2)]
+        yield base + [('step', 1), ('readd', 's0'), ('step', 2), ('readd', 's1'), ('step', 1)]
+        yield base + [('cleanup', 's1'), ('step', 1), ('add', 's1', ps[1], 1, 0, None, []), ('add', 'lo', -1, 1, 0, None, []),
+                      ('step', 2)]
     for f, st, en in itertools.product([1, 2, 3], [-2, 0, 1, 3], [None, 0, 2, 4]):
         yield [('add', 'a', 0, f, st, en, []), ('add', 'b', 0, 1, 0, None, []), ('step', 6)]
         yield [('add', 'b', 0, 1, 0, None, []), ('step', 4), ('add', 'a', 0, f, st, en, []), ('step', 7)]
@@ -312,7 +340,7 @@ def random_history(rng, dynamic=False):
             ops.append(('add', rng.choice(ids), rng.randint(-1, 1), rng.randint(1, 4), rng.randint(-3, 5),
                         rng.choice([None, None, rng.randint(-1, 9)]), script))
         elif r < 0.6:
-            ops.append(('remove', rng.choice(ids)))
+            ops.append((rng.choice(['remove', 'remove', 'cleanup', 'readd']), rng.choice(ids)))
         elif r < 0.85:
             ops.append(('step', rng.randint(1, 4)))
         elif r < 0.95:
